@@ -165,7 +165,7 @@ PipelineVerdict(post, children) ==
   IN
     V(~escaped, "C14_forked_child_escaped")
     \cup V(res.errkind # "panic", "C13_panic")
-    \cup (IF res.errkind = "panic" THEN {"C14_panic", "C12_panic", "C08_panic", "C01_panic", "C18_panic"} ELSE {})
+    \cup (IF res.errkind = "panic" THEN {"C14_panic", "C12_panic", "C08_panic", "C01_panic", "C02_panic", "C18_panic"} ELSE {})
     \* ---- C08 / C18 for every stage that started
     \cup V(\A i \in 1..Len(stages) : NoLeakStage(stages[i]), "C08_no_pipe_end_leaks")
     \* (C13's "and nothing else": a command holds no further copy of a connecting pipe or of the shared stderr sink)
@@ -203,6 +203,13 @@ PipelineVerdict(post, children) ==
     \cup V(FailAt < 0 /\ res.ok /\ res.has_out /\ ~cfg.stream =>
              res.out.regular /\ res.out.count = inputLines /\ (inputLines > 0 => res.out.first = 1 /\ res.out.suffix = Concat(Tags)),
            "C13_output_is_composition_in_order")
+    \* C02 says of capture()/communicate() what C13 says of every terminator: the child receives exactly the supplied
+    \* input, once and in order, followed by end-of-file, and what is returned is what the (last) command wrote
+    \cup V(cfg.term \in {"capture", "communicate"} /\ cfg.stdin = "data" /\ AllStarted /\ (\A i \in 1..(N - 1) : Link(i)) =>
+             FirstStdinOk, "C02_capture_input_delivered")
+    \cup V(cfg.term \in {"capture", "communicate"} /\ FailAt < 0 /\ res.ok /\ res.has_out /\ ~cfg.stream =>
+             res.out.regular /\ res.out.count = inputLines /\ (inputLines > 0 => res.out.first = 1 /\ res.out.suffix = Concat(Tags)),
+           "C02_capture_output_verbatim")
     \cup V(FailAt < 0 /\ res.ok /\ res.has_err /\ cfg.stderr \in {"file", "capture"} /\ ~cfg.stream =>
              SetOf(res.err_lines) = SetOf(cfg.elines) /\ Len(res.err_lines) = N, "C13_no_stderr_line_lost")
     \cup V(FailAt < 0 /\ res.ok /\ res.has_status /\ cfg.term \in {"join", "capture", "popen"} /\ ~cfg.stream =>
